@@ -125,6 +125,7 @@ def make_classes():
             self.n_jobs_executed = 0
             self.n_circuits_executed = 0
             self.fail_next = False
+            self.batch_unsupported = False  # a peer may decline batches altogether and still serve single circuits
 
         def _measure(self, circuit, n, pos=0):
             state = refmodel.run_circuit(circuit.operations, circuit.n_qubits)
@@ -153,6 +154,8 @@ def make_classes():
             if len(ns) != len(circuits_batch) or any(n <= 0 for n in ns):
                 raise ValueError("bad n_samples")
             self.batch_calls.append((list(circuits_batch), ns))
+            if self.batch_unsupported:
+                raise NotImplementedError("this back-end runs one circuit per job")
             if self.fail_next:
                 self.fail_next = False
                 raise BackendFault("simulated batch failure")
